@@ -116,6 +116,13 @@ def bases(tier):
                          ["methods", None, {}, [["methodStep", None, {}, [["description", None, {}, []]]],
                                                 ["methodStep", None, {}, [["description", None, {}, [["para", "x y", {}, []]]]]]]]]])
     out.append(("xml-prefixed-plain-attributes+short-abstract", gtree.assign_ids(g_), 3))
+    g_ = from_listspec(["dataset", None, {"id": 7, "flag": True, "ratio": 1.5, "none": None},
+                        [["title", "t", {"n": 0}, []], ["abstract", None, {}, [["para", None, {}, [["itemizedlist", None, {}, []]]]]],
+                         ["description", None, {}, [["para", None, {}, []], ["markdown", None, {}, []]]]]])
+    for _, n_ in gtree.walk(g_):
+        n_["extras"] = [["xml:space", True], ["p:n", 3]]
+    g_["ns"] = [["p", "urn:u1"]]
+    out.append(("non-text-attribute-values+contentless-paras", gtree.assign_ids(g_), 3))
     # invalid trees (validators take their error branches)
     out.append(("invalid:unknown", gtree.assign_ids(from_listspec(
         ["dataset", "oops", {"zz": "1"}, [["zzUnknown", "x", {}, [["title", None, {}, []]]], ["title", None, {}, []],
